@@ -13,17 +13,34 @@ use std::sync::atomic::{AtomicI64, Ordering};
 pub struct Counting;
 static LIVE: AtomicI64 = AtomicI64::new(0);
 thread_local! { static ACTIVE: Cell<bool> = const { Cell::new(false) }; }
+// byte meter (C06: allocation in proportion to the input)
+thread_local! { static METER: Cell<bool> = const { Cell::new(false) }; static CUR: Cell<i64> = const { Cell::new(0) }; static PEAK: Cell<i64> = const { Cell::new(0) }; }
+fn meter(delta: i64) {
+    if METER.try_with(|m| m.get()).unwrap_or(false) {
+        let _ = CUR.try_with(|c| { let v = c.get() + delta; c.set(v); let _ = PEAK.try_with(|p| if v > p.get() { p.set(v) }); });
+    }
+}
+/// run `f` and return the peak number of bytes it held allocated at any one time (above the level at entry)
+pub fn metered<T>(f: impl FnOnce() -> T) -> (T, u64) {
+    CUR.with(|c| c.set(0)); PEAK.with(|p| p.set(0));
+    METER.with(|m| m.set(true));
+    let r = f();
+    METER.with(|m| m.set(false));
+    (r, PEAK.with(|p| p.get()).max(0) as u64)
+}
 
 unsafe impl GlobalAlloc for Counting {
     unsafe fn alloc(&self, l: Layout) -> *mut u8 {
         if ACTIVE.try_with(|a| a.get()).unwrap_or(false) { LIVE.fetch_add(1, Ordering::Relaxed); }
+        meter(l.size() as i64);
         System.alloc(l)
     }
     unsafe fn dealloc(&self, p: *mut u8, l: Layout) {
         if ACTIVE.try_with(|a| a.get()).unwrap_or(false) { LIVE.fetch_sub(1, Ordering::Relaxed); }
+        meter(-(l.size() as i64));
         System.dealloc(p, l)
     }
-    unsafe fn realloc(&self, p: *mut u8, l: Layout, n: usize) -> *mut u8 { System.realloc(p, l, n) }
+    unsafe fn realloc(&self, p: *mut u8, l: Layout, n: usize) -> *mut u8 { meter(n as i64 - l.size() as i64); System.realloc(p, l, n) }
 }
 
 /// run an FFI call with allocation counting switched on
